@@ -19,7 +19,7 @@ static void sc_comp_heap_narrow_clip (T *t) { comp_simple (t, "composite XOR 888
 /* wide (float) pipeline: heap buffer from width 512; every stored scanline of a narrow destination needs a temporary */
 static void sc_comp_heap_wide (T *t) { comp_simple (t, "composite OVER 2101010->8888 600x2", PIXMAN_OP_OVER, PIXMAN_a2r10g10b10, PIXMAN_a8r8g8b8, 600, 2, 0); }
 static void sc_comp_float_store (T *t) { comp_simple (t, "composite SRC 2101010->565 9x3", PIXMAN_OP_SRC, PIXMAN_a2r10g10b10, PIXMAN_r5g6b5, 9, 3, 0); }
-static void sc_comp_float_store_clip (T *t) { comp_simple (t, "composite OVER 2101010->8888 30x3 clip3", PIXMAN_OP_OVER, PIXMAN_a2r10g10b10, PIXMAN_a8r8g8b8, 30, 3, 1); }
+static void sc_comp_float_store_clip (T *t) { comp_simple (t, "composite OVER 2101010->8888 30xH clip3", PIXMAN_OP_OVER, PIXMAN_a2r10g10b10, PIXMAN_a8r8g8b8, 30, t->thorough ? 5 : 3, 1); }
 /* operator that needs division forces the wide pipeline on narrow images */
 static void sc_comp_wide_by_operator (T *t) { comp_simple (t, "composite COLOR_DODGE 8888->8888 700x2", PIXMAN_OP_COLOR_DODGE, PIXMAN_a8r8g8b8, PIXMAN_a8r8g8b8, 700, 2, 0); }
 
@@ -41,20 +41,20 @@ static void sc_comp_clips_mask (T *t)
 /* destination with an alpha map: one scratch line per fetched scanline (dest_get_scanline_narrow/_wide) */
 static void comp_alpha_map (T *t, const char *key, pixman_format_code_t sfmt, pixman_op_t op)
 {
-    int hf; surf_t s = surf_new (t, sfmt, 8, 3, 41), d = surf_new (t, PIXMAN_a8r8g8b8, 8, 3, 42), a = surf_new (t, PIXMAN_a8, 8, 3, 43);
+    int hf, H = t->thorough ? 5 : 3; surf_t s = surf_new (t, sfmt, 8, H, 41), d = surf_new (t, PIXMAN_a8r8g8b8, 8, H, 42), a = surf_new (t, PIXMAN_a8, 8, H, 43);
     if (sfmt == PIXMAN_a8r8g8b8) surf_premul (&s);
     surf_premul (&d);
     pixman_image_set_alpha_map (d.img, a.img, 0, 0);
     t->key_third = "c15-alpha-scratch-failure-wrong-pixels";
-    WIN (pixman_image_composite32 (op, s.img, NULL, d.img, 0, 0, 0, 0, 0, 0, 8, 3));
-    draw_check (t, key, &d, 0, 0, 8, 3, DRAW_VOID, hf);
-    if (!vf_failed ()) { char k2[64]; snprintf (k2, sizeof k2, "%s [alpha map]", key); draw_check (t, k2, &a, 0, 0, 8, 3, DRAW_VOID, hf); }
+    WIN (pixman_image_composite32 (op, s.img, NULL, d.img, 0, 0, 0, 0, 0, 0, 8, H));
+    draw_check (t, key, &d, 0, 0, 8, H, DRAW_VOID, hf);
+    if (!vf_failed ()) { char k2[64]; snprintf (k2, sizeof k2, "%s [alpha map]", key); draw_check (t, k2, &a, 0, 0, 8, H, DRAW_VOID, hf); }
     t->key_third = NULL;
     pixman_image_set_alpha_map (d.img, NULL, 0, 0);
     surf_free (&s); surf_free (&d); surf_free (&a);
 }
-static void sc_alpha_map_narrow (T *t) { comp_alpha_map (t, "composite OVER_REVERSE 8888->8888+alphamap(a8) 8x3", PIXMAN_a8r8g8b8, PIXMAN_OP_OVER_REVERSE); }
-static void sc_alpha_map_wide (T *t)   { comp_alpha_map (t, "composite OVER_REVERSE 2101010->8888+alphamap(a8) 8x3", PIXMAN_a2r10g10b10, PIXMAN_OP_OVER_REVERSE); }
+static void sc_alpha_map_narrow (T *t) { comp_alpha_map (t, "composite OVER_REVERSE 8888->8888+alphamap(a8)", PIXMAN_a8r8g8b8, PIXMAN_OP_OVER_REVERSE); }
+static void sc_alpha_map_wide (T *t)   { comp_alpha_map (t, "composite OVER_REVERSE 2101010->8888+alphamap(a8)", PIXMAN_a2r10g10b10, PIXMAN_OP_OVER_REVERSE); }
 
 /* scaled bilinear source that covers the clip: the (ssse3 | fast) "bilinear cover" iterator allocates two lines */
 static void comp_bilinear_cover (T *t, const char *key, pixman_op_t op, pixman_format_code_t dfmt, const char *third)
@@ -240,3 +240,32 @@ static void sc_glyphs_mixed (T *t)       { glyph_cfg g = { { PIXMAN_a8r8g8b8, PI
 static void sc_glyphs_no_mask (T *t)     { glyph_cfg g = { { PIXMAN_a8, PIXMAN_a8r8g8b8 }, 6, PIXMAN_a8, PIXMAN_OP_OVER, 1, 1, NULL, "composite_glyphs_no_mask OVER clip3" }; glyph_case (t, &g); }
 /* a glyph wider than the stack scanline buffer in a format without a copy fast path: insert's internal copy needs the heap */
 static void sc_glyphs_wide_insert (T *t) { glyph_cfg g = { { PIXMAN_a4, PIXMAN_a8 }, 2100, PIXMAN_a8, PIXMAN_OP_OVER, 0, 0, NULL, "composite_glyphs OVER a4 2100-wide glyph" }; glyph_case (t, &g); }
+
+/* ---- thorough-only variants ---- */
+static void sc_comp_heap_mask_ca (T *t)
+{
+    int hf; surf_t s = surf_new (t, PIXMAN_a8r8g8b8, 2100, 2, 91), m = surf_new (t, PIXMAN_a8r8g8b8, 2100, 2, 92), d = surf_new (t, PIXMAN_a8r8g8b8, 2100, 2, 93);
+    surf_premul (&s); surf_premul (&d); pixman_image_set_component_alpha (m.img, 1);
+    WIN (pixman_image_composite32 (PIXMAN_OP_ATOP, s.img, m.img, d.img, 0, 0, 0, 0, 0, 0, 2100, 2));
+    draw_check (t, "composite ATOP 8888 x CA-mask 8888 -> 8888 2100x2", &d, 0, 0, 2100, 2, DRAW_VOID, hf);
+    surf_free (&s); surf_free (&m); surf_free (&d);
+}
+static void sc_alpha_map_x888 (T *t)
+{
+    int hf; surf_t s = surf_new (t, PIXMAN_a8r8g8b8, 8, 4, 94), d = surf_new (t, PIXMAN_x8r8g8b8, 8, 4, 95), a = surf_new (t, PIXMAN_a8, 8, 4, 96);
+    surf_premul (&s);
+    pixman_image_set_alpha_map (d.img, a.img, 0, 0);
+    t->key_third = "c15-alpha-scratch-failure-wrong-pixels";
+    WIN (pixman_image_composite32 (PIXMAN_OP_IN_REVERSE, s.img, NULL, d.img, 0, 0, 0, 0, 1, 1, 6, 3));
+    draw_check (t, "composite IN_REVERSE 8888->x888+alphamap(a8)", &d, 1, 1, 6, 3, DRAW_VOID, hf);
+    if (!vf_failed ()) draw_check (t, "composite IN_REVERSE 8888->x888+alphamap(a8) [alpha map]", &a, 1, 1, 6, 3, DRAW_VOID, hf);
+    t->key_third = NULL;
+    pixman_image_set_alpha_map (d.img, NULL, 0, 0);
+    surf_free (&s); surf_free (&d); surf_free (&a);
+}
+static void sc_fill_rects_over_clip (T *t)
+{
+    t->key_notdrawn = "c15-fill-boxes-true-after-skipped-composite";
+    fill_rects_n (t, "fill_rectangles OVER translucent 8 rects clip3", PIXMAN_OP_OVER, 0x8000, 8, 1);
+    t->key_notdrawn = NULL;
+}
